@@ -42,11 +42,25 @@ import numpy as np
 from fractions import Fraction
 
 from .. import universe as U
-from ..core import guarded, MachineryError
+from ..core import guarded as _guarded, MachineryError
 from ..par import Pool
 from ..project import exact_ints
 from ..shape_common import (DIM, build, spec_name, strip_dg, leaves, nbfun, lattice, pick_window, inv_exact,
                             fxs, as_field, field_dict, field_records)
+
+def guarded(fn, seconds=60.0):
+    """core.guarded, but what depends on the MACHINE is never an observation about the library: the per-call alarm (the
+    calls made here are loop-free array expressions; the limits are ten times what a loaded machine needed) and resource
+    exhaustion end the run as a machinery failure (exit 2) instead of becoming an event error judged by NoUnexpectedError."""
+    res, err = _guarded(fn, 10.0 * seconds)
+    if err.split(':')[-1] in ('Timeout', 'MemoryError', 'OSError', 'BrokenPipeError', 'RecursionError'):
+        raise MachineryError('C09 driver: ' + err + ' in a library / projection call (machine load?)')
+    return res, err
+
+
+class HookUnavailable(Exception):
+    """the run-time wrapper on private attributes of ElementGlobal could not be installed / used"""
+
 
 RULE = ('scenario = one element instance (class, parameter, wrapper) on the reference cell or on the chosen cells of '
         'one mesh; events = per local index the sampled stencils, per cell and point the transformation data, the '
@@ -847,12 +861,15 @@ def exec_cell(rec):
 
         def call():
             M = own_functionals(spec, mesh, mapping, e, N)
+            if M.shape != (nt, N, N) or not np.isfinite(M).all():
+                raise HookUnavailable('unexpected result of _eval_dofs')
             return [[fxs(M[k, j, :]) for j in range(N)] for k in cells]
         res, err = guarded(call, 600)
         if err:
-            ev = err_event(b, 'Dual', err, **EMPTY['Dual'])
-            ev.update(how='gdof', N=N)
-            events.append(ev)
+            # This observation goes through PRIVATE attributes (_pbasis, _eval_dofs) of a scratch instance; if that
+            # route fails (renamed / restructured internals, or a functional evaluated where the wrapper cannot follow)
+            # nothing is claimed: no event, counted in the evidence.  The named-DOF duality (public API) stands.
+            events.append({'a': 'Skip', 'what': 'gdof-hook', 'err': err})
         else:
             for k, M in zip(cells, res):
                 ev = err_event(b, 'Dual', '', **EMPTY['Dual'])
@@ -892,6 +909,8 @@ def own_functionals(spec, mesh, mapping, e, N):
     e.gbasis(mapping, X0, 0)                      # initialises the tables of e
     e2 = build(spec)
     e2.gbasis(mapping, X0, 0)
+    if not isinstance(getattr(e2, '_pbasis', None), dict) or not callable(getattr(e2, '_eval_dofs', None)):
+        raise HookUnavailable('ElementGlobal internals changed')
     keys = list(e2._pbasis.keys())
     nt = mesh.t.shape[1]
     cache = {}
@@ -923,10 +942,12 @@ def scenario(rec):
     name = spec_name(rec['spec'])
     geo = rec['mesh']['geo'] if rec['driver'] == 'cell' else 'ref'
     leaf = strip_dg(rec['spec'])
+    evs = execute(rec)
     return {'id': f"C09-{name}-{rec['driver']}-{geo}" + (f"-v{rec['variant']}" if rec.get('variant') else ''), 'recipe': rec,
             'tags': {'elem': name, 'cls': leaf[1] if leaf[0] == 'cls' else leaf[0], 'driver': rec['driver'], 'geo': geo,
                      'kind': rec['info']['kind'], 'fam': rec['info']['fam']},
-            'events': execute(rec)}
+            'events': [ev for ev in evs if ev.get('a') != 'Skip'],
+            'skipped': [ev for ev in evs if ev.get('a') == 'Skip']}
 
 
 def recipes(T, tier, seed):
@@ -1029,6 +1050,7 @@ def run(ctx):
     ctx.notes['tolerances'] = {'TolDeriv': f"2^-{T['tol']['deriv']} x (1/h)^m x sum|w_j| x max|v_j|",
                                'TolMap': f"2^-{T['tol']['map']} x magnitudes of the factors",
                                'TolDual': f"2^-{T['tol']['dual']}", 'TolGlob': f"2^-{T['tol']['glob']} (ElementGlobal)"}
+    ctx.notes['observations_skipped'] = [dict(sk, scenario=sc['id']) for sc in scs for sk in sc.get('skipped', [])]
     ctx.notes['exported_classes_missing_from_tables'] = missing      # then the enumeration is not exhaustive
     return ctx.finish(rule=RULE, assumptions=[
         'polynomial degrees per class are those of the table in spec/ShapeFunctions.tla (read from the element sources; '
